@@ -177,7 +177,9 @@ def run_setters(rng, obs):
     ck(R.close(R.wmean(m.positions, m.weights), t, 1e-9, 1e-9), 'center_mass setter reaches the value', t=t, observed=R.wmean(m.positions, m.weights))
     ck(list(m.weights) == wts[k], 'center_mass setter leaves the weights alone')
     moved = False
-    if pts[k] >= 2:
+    if pts[k] >= 2 and max(pos[k]) - min(pos[k]) <= 1e-9:
+        obs.event('zero_range_factor_not_rescaled')      # a factor whose positions coincide cannot be given a range by rescaling: undefined, not judged
+    elif pts[k] >= 2:
         r = rng.choice([1.0, 6.0])
         m.range = r
         ck(R.close(max(m.positions) - min(m.positions), r), 'range setter reaches the value', r=r, observed=max(m.positions) - min(m.positions))
